@@ -6,10 +6,10 @@ def take(mod, name, entries, newname):
     u = copy.deepcopy([x for x in mod.UNITS if x['name'] == name][0]); u['entries'] = entries; u['validate'] = entries[:1]; u['name'] = newname
     return u
 UNITS = [
-    dict(name='ptr', harness='harness/c09_shared.cpp', sources=SRC, defines={'quick': {'VF_K': 3, 'VF_TOPS': 2}, 'thorough': {'VF_K': 5, 'VF_TOPS': 2}},
+    dict(name='ptr', harness='harness/c09_shared.cpp', sources=SRC, defines={'quick': {'VF_K': 3, 'VF_TOPS': 2}, 'thorough': {'VF_K': 4, 'VF_TOPS': 2}},
          entries=['ptr_seq'], opts={'all': {'unwind': 64}}, split={'quick': 8, 'thorough': 16}, budget={'quick': 280, 'thorough': 2600}, validate=['ptr_seq']),
     dict(name='threads', harness='harness/c09_shared.cpp', sources=SRC, native=False,
-         defines={'quick': {'VF_K': 3, 'VF_TOPS': 2}, 'thorough': {'VF_K': 3, 'VF_TOPS': 3}},
+         defines={'quick': {'VF_K': 3, 'VF_TOPS': 2}, 'thorough': {'VF_K': 3, 'VF_TOPS': 2}},
          entries=['string_threads', 'variant_threads', 'ptr_threads'],
          opts={'quick': {'unwind': 64, 'preempt': 2}, 'thorough': {'unwind': 64, 'preempt': 3}},
          split={'quick': 12, 'thorough': 16}, budget={'quick': 280, 'thorough': 2600}, validate=[]),
@@ -17,7 +17,7 @@ UNITS = [
 ]
 BOUNDS = {
     'quick': 'RefCount::Ptr: histories of <= 3 operations (assign raw, assign handle, swap, release, copy) over 3 handles and 2 ledger objects with a virtual destructor; String/Variant/Xml::Variant sequential sharing histories of C06/C07/C16; threads: 2 worker threads + main, each owning a distinct handle to one String / Variant list / Ptr payload, <= 2 operations per thread (copy own handle, modify through own handle, release), every interleaving with <= 2 preemptions at atomic read-modify-write and volatile accesses and at thread start/join',
-    'thorough': 'Ptr histories <= 5; <= 3 operations per thread, <= 3 preemptions',
+    'thorough': 'Ptr histories <= 4; <= 2 operations per thread, <= 3 preemptions (3 operations per thread with 2 preemptions was measured once: 10.9 million schedules, 44 min, no violation - too long to register)',
 }
 OUTSIDE = 'weak-memory effects (sequential consistency is assumed: Atomic uses the full-barrier __sync builtins), preemption at plain (non-atomic, non-volatile) accesses, more than 3 threads'
 ASSUMPTIONS = ['threads are modelled by the engine (no native replay for the threads unit: counterexamples are schedules, re-executed deterministically by the engine)',
